@@ -304,6 +304,7 @@ func runMqCase(c mqCase) (obs mqObs) {
 		return s
 	}
 	ncall := 0
+	nReplied := 0
 	var callsWG sync.WaitGroup
 	pendingCalls := 0
 	var cmu sync.Mutex
@@ -398,8 +399,10 @@ func runMqCase(c mqCase) (obs mqObs) {
 				obs.Desync = fmt.Sprintf("event %d: queue goroutine is not sending", i)
 			} else {
 				if e.Ev == "sendok" {
+					nReplied++
 					parkedSend.reply <- nil
 				} else {
+					nReplied++
 					parkedSend.reply <- errors.New("verif: scripted send failure")
 				}
 				parkedSend = nil
@@ -454,6 +457,7 @@ func runMqCase(c mqCase) (obs mqObs) {
 			doCall(mqEv{Ev: "call", R: fmt.Sprintf("s%d", ncall+1), Fin: true})
 			callsIdle(500 * time.Millisecond)
 			if waitSend(50 * time.Millisecond) {
+				nReplied++
 				parkedSend.reply <- nil
 				parkedSend = nil
 			}
@@ -469,6 +473,7 @@ func runMqCase(c mqCase) (obs mqObs) {
 				waitSend(30 * time.Millisecond)
 			}
 			if parkedSend != nil { // a sender was still open: this send fails, so does the reconnect
+				nReplied++
 				parkedSend.reply <- errors.New("verif: connection lost")
 				parkedSend = nil
 				time.Sleep(130 * time.Millisecond)
@@ -597,15 +602,25 @@ func runMqCase(c mqCase) (obs mqObs) {
 		doCall(d)
 	}
 	// run out: every remaining send succeeds; wait for quiescence
+	// (it is not over while a live queue still holds a message it has not taken out yet: after a failed send the sender
+	//  needs its 100 ms and a re-open before it goes on, longer on a loaded machine)
+	queuedSomewhere := func() bool {
+		mu.Lock()
+		defer mu.Unlock()
+		// still queued in a live queue, or taken out and not yet at the network (every extracted message gets at least one reply)
+		return live > 0 && (len(cur) > 0 || nReplied < len(wireTopics))
+	}
 	quiet := time.Now()
-	for time.Since(quiet) < 30*time.Millisecond && time.Since(quiet) < 2*time.Second {
+	for startT := time.Now(); (time.Since(quiet) < 30*time.Millisecond || queuedSomewhere()) && time.Since(startT) < 1500*time.Millisecond; {
 		select {
 		case s := <-net.sends:
+			nReplied++
 			s.reply <- nil
 			quiet = time.Now()
 		case <-time.After(5 * time.Millisecond):
 		}
 		if parkedSend != nil {
+			nReplied++
 			parkedSend.reply <- nil
 			parkedSend = nil
 			quiet = time.Now()
